@@ -126,7 +126,7 @@ NAMES = ["AAA", "BBBB", "CCCCC", "EST", "EDT", "WET", "WEST", "NZST", "NZDT",
 def gen_rule(rng, lo_month, hi_month, allow_forms=("M", "M", "M", "J", "N")):
     k = rng.choice(allow_forms)
     t = rng.choice([7200, 7200, 3600, 0, 10800, 1800, 5400, 86400, 82800,
-                    9000])
+                    9000, 7200, 3600, 7230, 3615, 45])
     if k == "M":
         return ["M", rng.randrange(lo_month, hi_month + 1),
                 rng.choice([1, 2, 3, 4, 5]), rng.randrange(7), t]
